@@ -3,9 +3,9 @@ import KavaVerif.Model.Bep3
 /-!
   C13 driver (x/bep3 atomic swaps).  One self-contained case per line:
 
-    c13.op  kind  cfg  pre  args  hashes  limStable  shadow  =>  result  post
+    c13.op  kind  cfg  pre  args  hashes  limStable  shadow  [cdep]  =>  result  post
 
-  kind    create | claim | refund | begin | setlimit
+  kind    create | claim | refund | begin | setlimit | setdeputy
   cfg     module;macc bits;blocked bits
   pre/post  height|time|prevTime|assets|supplies|swaps|byBlock|longterm|bal|bankSupply
             assets   d,deputy,limit,timeLimited,period,tbl,active,fee,min,max,minLock,maxLock ;…
@@ -14,12 +14,17 @@ import KavaVerif.Model.Bep3
             byBlock / longterm  height,id ;…       bal  one row per party, one column per denom
   args    create: hash,ts,span,sender,recipient,other,n,(d,amt)×n   claim: from,id,secret
           refund: from,id   begin: dh,dt   setlimit: d,limit,timeLimited,period,tbl,active
+          setdeputy: d,newDeputy   (governance rotates the deputy address of asset d)
   hashes  sid entries `hash,sender,other,id;…` | H entries `secret,ts,hash;…` observed on the real
           CalculateSwapID / CalculateRandomHash (byte strings interned injectively)
 
   shadow  d,elapsed,window;…  the harness's own period clock after the operation: real time accumulated
           since the reset it computes itself (from its own log of block times, per asset independently) and
           the incoming amounts it saw claimed under a time limit since then; never read from the implementation
+
+  cdep    id,deputy;…  (optional field) the deputy that was in force when each stored swap was created, from
+          the harness's own record of the parameters it wrote; a swap without an entry is judged by the
+          current deputy
 
   The handler (1) runs the Lean model on the observed pre-state and compares it with the observed
   post-state (MISMATCH) and (2) evaluates the C13 predicates on the implementation's own observation,
@@ -175,6 +180,7 @@ inductive Cmd where
   | refund (frm id : Nat)
   | begin (dh : Nat) (dt : Int)
   | setlimit (d : Nat) (limit : Int) (tl : Bool) (period tbl : Int) (active : Bool)
+  | setdeputy (d : Nat) (dep : Nat)
 
 def pairs : List Int → Option (List (Denom × Int))
   | [] => some []
@@ -191,6 +197,7 @@ def parseCmd (kind : String) (args : List Int) : Option Cmd :=
   | "refund", [f, id] => some (.refund f.toNat id.toNat)
   | "begin", [dh, dt] => some (.begin dh.toNat dt)
   | "setlimit", [d, l, tl, p, tbl, act] => some (.setlimit d.toNat l (tl != 0) p tbl (act != 0))
+  | "setdeputy", [d, dep] => some (.setdeputy d.toNat dep.toNat)
   | _, _ => none
 
 def toOp : Cmd → Op
@@ -199,6 +206,7 @@ def toOp : Cmd → Op
   | .refund f id => .refund f id
   | .begin dh dt => .beginBlock dh dt
   | .setlimit d l tl p tbl a => .setLimit d l tl p tbl a
+  | .setdeputy d dep => .setDeputy d dep
 
 def parseCfg (s : String) : Option Cfg :=
   match s.splitOn ";" with
@@ -220,7 +228,7 @@ def assetOf (o : OSt) (d : Denom) : Option Asset := (o.assets.find? (fun e => e.
 def first (l : List (Option String)) : Option String := l.findSome? id
 
 /-- state predicates (custody, counters, indexes, deputy direction, limits) -/
-def statePreds (cfg : Cfg) (o : OSt) (limStable : Bool) : Option String :=
+def statePreds (cfg : Cfg) (o : OSt) (limStable : Bool) (cdep : List (Nat × Nat)) : Option String :=
   first [
     -- C13_custody: the module account holds exactly the outgoing swaps not yet closed
     o.supplies.findSome? (fun e =>
@@ -237,9 +245,14 @@ def statePreds (cfg : Cfg) (o : OSt) (limStable : Bool) : Option String :=
       then some (predfail "C13_indexes" "by-block") else none),
     (if sortKeys o.longterm != sortKeys ((o.swaps.filter (·.status == .completed)).map (fun s => (s.closed + horizon, s.id)))
       then some (predfail "C13_indexes" "long-term") else none),
-    -- C13_deputy_only_incoming (deputies are fixed within a sequence)
+    -- C13_deputy_only_incoming: a stored swap is incoming exactly when its sender was the deputy of its asset
+    -- when it was created (the harness's own record; governance may have rotated the deputy since — a stored
+    -- swap keeps its direction, C13_deputy_rotation); without a record: the current deputy
     o.swaps.findSome? (fun s => match assetOf o s.denom with
-      | some a => if (s.dir == .incoming) != (s.sender == a.deputy) then some (predfail "C13_deputy_only_incoming" "state") else none
+      | some a =>
+        (match cdep.find? (fun e => e.1 == s.id) with
+         | some e => if (s.dir == .incoming) != (s.sender == e.2) then some (predfail "C13_deputy_only_incoming" "state-deputy-at-creation") else none
+         | none => if (s.dir == .incoming) != (s.sender == a.deputy) then some (predfail "C13_deputy_only_incoming" "state") else none)
       | none => some (predfail "C13_deputy_only_incoming" "swap-of-unknown-asset")),
     -- C13_limits as a state invariant, as long as governance has not touched the limits
     (if limStable then o.supplies.findSome? (fun e => match assetOf o e.1 with
@@ -403,7 +416,48 @@ def stepPreds (cfg : Cfg) (t : Tabs) (cmd : Cmd) (ok : Bool) (pre post : OSt) : 
       let claimedIn := (closedNow.filter (fun p => p.status == .open && p.dir == .incoming && p.denom == e.1)).foldl (fun acc p => acc + p.amt) 0
       if sp.tlCurrent != e.2.tlCurrent && sp.tlCurrent != e.2.tlCurrent + claimedIn then some (predfail "C13_limits" "time-limited-accounting")
       else none)
-  first [perSwap, newOk, closeOk, fundsOk, bankOk, currentOk, limitsOk, tlOk]
+  -- C13_deputy_rotation: a governance step (deputy rotation, limit change) touches nothing but the asset
+  -- parameter — no swap record, index entry, supply counter, balance or bank supply moves; a rotation changes
+  -- exactly the deputy of its asset
+  let govOk : Option String :=
+    let frame (name : String) : Option String :=
+      if post.swaps != pre.swaps then some (predfail name "swaps-changed")
+      else if sortKeys post.byBlock != sortKeys pre.byBlock || sortKeys post.longterm != sortKeys pre.longterm then some (predfail name "indexes-changed")
+      else if post.supplies != pre.supplies then some (predfail name "supply-counters-changed")
+      else if post.bal != pre.bal || post.bankSupply != pre.bankSupply then some (predfail name "funds-moved")
+      else if post.height != pre.height || post.time != pre.time || post.prevTime != pre.prevTime then some (predfail name "clock-changed")
+      else none
+    match cmd with
+    | .setdeputy d dep =>
+      (match frame "C13_deputy_rotation" with
+       | some f => some f
+       | none =>
+         let expAssets := if ok then pre.assets.map (fun e => if e.1 == d then (e.1, { e.2 with deputy := dep }) else e) else pre.assets
+         if post.assets != expAssets then some (predfail "C13_deputy_rotation" "params") else none)
+    | .setlimit .. => frame "C13_deputy_rotation"
+    | _ => none
+  -- C13_refund_always_possible / C13_claim_outgoing_always_possible / C13_claim_incoming_possible_within_limits:
+  -- a live swap can be closed whoever the deputy is now — the refusal of a rightful close is a failure
+  let possibleOk : Option String :=
+    if ok then none else
+    match cmd with
+    | .refund _ id => (match findById pre.swaps id with
+        | some p => if p.status == .expired && !cfg.blocked p.sender then some (predfail "C13_refund_always_possible" s!"refused dir={p.dir.code}") else none
+        | none => none)
+    | .claim _ id rn => (match findById pre.swaps id with
+        | some p =>
+          if p.status != .open || !preimageOk p rn then none
+          else match p.dir with
+            | .outgoing => some (predfail "C13_claim_outgoing_always_possible" "refused")
+            | .incoming => (match assetOf pre p.denom with
+                | some a =>
+                  let s0 := supOf pre p.denom
+                  if !cfg.blocked p.recipient && decide (s0.current + p.amt ≤ a.limit) && (!a.timeLimited || decide (s0.tlCurrent + p.amt ≤ a.tbl))
+                    then some (predfail "C13_claim_incoming_possible_within_limits" "refused") else none
+                | none => none)
+        | none => none)
+    | _ => none
+  first [perSwap, newOk, closeOk, fundsOk, bankOk, currentOk, limitsOk, tlOk, govOk, possibleOk]
 
 def winOf (shadow : List (List Int)) (d : Nat) : Int :=
   match shadow.find? (fun r => r.getD 0 (-1) == (d : Int)) with
@@ -436,10 +490,14 @@ def shadowPreds (cmd : Cmd) (ok : Bool) (pre post : OSt) (shadow : List (List In
     | _ => some (badInput "shadow"))
   first [exceeded, drift]
 
-def handle : Handler
-  | [kind, cfg, pre, args, tabs, limStable, shadow, _, result, post] =>
-    match parseCfg cfg, parseSt pre, ints? args, parseTabs tabs, bool? limStable, parseSt post, rows shadow with
-    | some cfg, some pre, some args, some tabs, some limStable, some post, some shadow =>
+def parseCdep (s : String) : Option (List (Nat × Nat)) := do
+  (← rows s).mapM (fun r => match r with
+    | [id, dep] => some (id.toNat, dep.toNat)
+    | _ => none)
+
+def handleCase (kind cfg pre args tabs limStable shadow cdep result post : String) : String :=
+    match parseCfg cfg, parseSt pre, ints? args, parseTabs tabs, bool? limStable, parseSt post, rows shadow, parseCdep cdep with
+    | some cfg, some pre, some args, some tabs, some limStable, some post, some shadow, some cdep =>
       match parseCmd kind args with
       | none => badInput "args"
       | some cmd =>
@@ -449,7 +507,7 @@ def handle : Handler
           if result == "panic" then some (predfail "C13_no_panic" kind)
           else match shadowPreds cmd (result == "ok") pre post shadow with
             | some f => some f
-            | none => match statePreds cfg post limStable with
+            | none => match statePreds cfg post limStable cdep with
               | some f => some f
               | none => stepPreds cfg tabs cmd (result == "ok") pre post
         match pf with
@@ -463,7 +521,13 @@ def handle : Handler
           else
             let m := match res with | .ok s' => ofSt post s' | _ => pre
             cmpSt m post
-    | _, _, _, _, _, _, _ => badInput "parse"
+    | _, _, _, _, _, _, _, _ => badInput "parse"
+
+def handle : Handler
+  | [kind, cfg, pre, args, tabs, limStable, shadow, _, result, post] =>
+    handleCase kind cfg pre args tabs limStable shadow "-" result post
+  | [kind, cfg, pre, args, tabs, limStable, shadow, cdep, _, result, post] =>
+    handleCase kind cfg pre args tabs limStable shadow cdep result post
   | _ => badInput "arity"
 
 def handlers : List (String × Handler) := [("c13.op", handle)]
